@@ -53,6 +53,9 @@ def classify(f, du, dest, _depth=0):
             r = s["rhs"]
             if s["lhs"]["l"] == 0 and not s["lhs"]["p"]:
                 tags.add("returned")
+                # `_0 = Err(move (r as Err).0)` (a written-out `r.map(..)`): the error payload goes into the returned value
+                if any(o.get("k") in ("copy", "move") and o["pl"]["l"] == dest and any(isinstance(e, dict) and e.get("dc") == 1 for e in o["pl"]["p"]) for o in r.get("ops", [])):
+                    err_payload_read = True
             elif r["rv"] == "discr":
                 discr_read = True
             else:
